@@ -54,12 +54,12 @@ THEOREMS = {
  'C01': ['C01_ntriangles_partial', 'C01_vertices_from_loop', 'C01_ntriangles_eq_refuted', 'C01_orientation_refuted'],
  'C08': ['C08_initial_invariants', 'C08_wf_history', 'C08_counter_push', 'C08_counter_invalidate_live', 'C08_counter_mark_as_neighbours',
          'C08_counter_split_triangle', 'C08_counter_flip_diagonal', 'C08_counter_restore_delaunay', 'C08_mark_reciprocal',
-         'C08_split_edge_half_update_refuted'],
+         'C08_split_edge_half_update_refuted', 'C08_split_edge_w4_now_atomic'],
  'C09': ['C09_from_polygon_bounded', 'C09_restore_delaunay_bounded', 'C09_edge_add_no_panic', 'C09_panic_sites_flip_diagonal',
          'C09_panic_sites_split_edge', 'C09_panic_sites_split_triangle', 'C09_panic_sites_restore_delaunay', 'C09_panic_sites_add_point',
          'C09_panic_sites_refine', 'C09_wf_push', 'C09_wf_invalidate', 'C09_wf_mark_as_neighbours', 'C09_wf_flip_diagonal',
          'C09_wf_split_edge', 'C09_wf_split_triangle', 'C09_wf_refine', 'C09_neighbour_lookup_in_range',
-         'C09_restore_delaunay_structural_sites', 'C09_mesh_polygon_panics_refuted', 'C09_wellcond_err_refuted'],
+         'C09_restore_delaunay_structural_sites', 'C09_mesh_polygon_w3_now_ok', 'C09_wellcond_w5_now_ok'],
  'C18': ['C18_refine_ok_bound', 'C18_mesh_polygon_ok_bound', 'C18_ok_all_valid', 'C18_cached_ratio_is_triangle_ratio'],
 }
 
